@@ -32,6 +32,7 @@ type Program struct {
 	NumFuncs int
 	rootFuncs []*ssa.Function
 	lockSum   map[*ssa.Function]map[string]bool
+	sites     map[*ssa.Function][]ssa.CallInstruction
 }
 
 const (
